@@ -169,6 +169,9 @@ def build_harness(race=False):
         return True, binp, ''
 
 
+RETRIED = []
+
+
 def run_generators(binp, prop, outdir, seed, tier, extra_env=None):
     env = dict(GOENV, VERIF_OUT=outdir, VERIF_SEED=str(seed), VERIF_TIER=tier, VERIF_REPO=REPO, VERIF_CORPUS=os.path.join(VERIF, 'corpus'),
                VERIF_E2E_CACHE=os.path.join(WORK, 'e2e-cache'))
@@ -184,6 +187,20 @@ def run_generators(binp, prop, outdir, seed, tier, extra_env=None):
     pat = '^(' + '|'.join(tests) + ')$'
     to = prop.get('timeout', {}).get(tier, 600 if tier == 'quick' else 7200)
     rc, out = run([binp, '-test.run', pat, '-test.timeout', '%ds' % to, '-test.count', '1'], to + 30, cwd=outdir, env=env)
+    if rc != 0 and ('test timed out' in out or rc == 124):
+        # a run that never ends: keep the goroutine dump and try once more.  Twice in a row is reported (harness failure ->
+        # VIOLATION); once only is recorded in the evidence as a retried run (a virtual-clock bubble that stops advancing
+        # was seen once in 25 thorough sweeps and could not be reproduced; see DESIGN.md 11.7)
+        os.makedirs(os.path.join(WORK, 'hangs'), exist_ok=True)
+        hp = os.path.join(WORK, 'hangs', '%s-%s-%d.txt' % (prop['id'], tier, int(time.time())))
+        with open(hp, 'w') as f:
+            f.write(out)
+        log('harness run timed out after %d s; output kept in %s; running it once more' % (to, hp))
+        for cf in glob.glob(os.path.join(outdir, '*')):
+            if os.path.isfile(cf):
+                os.remove(cf)
+        rc, out = run([binp, '-test.run', pat, '-test.timeout', '%ds' % to, '-test.count', '1'], to + 30, cwd=outdir, env=env)
+        RETRIED.append(hp)
     return rc, out
 
 
@@ -547,6 +564,8 @@ def main():
         correspondence_mismatches=len(ev['corr']), monitor_failures=len(ev['monitor']) + len(ev['direct']),
         search_cases=searched, proof_ok=proofs['ok'], race_detector=race_note, kernel_crosscheck=kernel, coqchk=chk,
     )
+    if RETRIED:
+        coverage['retried_after_timeout'] = RETRIED
     evidence = dict(property_id=pid, tier=tier, seed=seed, level=prop.get('level', 'proof'), coverage=coverage,
                     assumptions=prop.get('assumptions', []), wall_s=round(time.time() - t0, 2), violations=nviol)
     with open(evp, 'w') as f:
